@@ -1,0 +1,35 @@
+//go:build verif
+// +build verif
+
+package gateway
+
+import (
+	"context"
+	"net"
+
+	"github.com/energomonitor/bisquitt/util"
+)
+
+// VerifServeConn serves one MQTT-SN connection exactly as the goroutine
+// started by ListenAndServe does, but on a connection supplied by the
+// caller. If dial is not nil, it is used instead of dialing the MQTT broker.
+// It returns when the session has ended and snConn has been closed.
+//
+// Verification hook; compiled only with the "verif" build tag.
+func (gw *Gateway) VerifServeConn(ctx context.Context, logger util.Logger, snConn net.Conn, dial func() net.Conn) {
+	handlerCfg := &handlerConfig{
+		MqttBrokerAddress:     gw.cfg.MqttBrokerAddress,
+		MqttUser:              gw.cfg.MqttUser,
+		MqttPassword:          gw.cfg.MqttPassword,
+		MqttConnectionTimeout: gw.cfg.MqttConnectionTimeout,
+		AuthEnabled:           gw.cfg.AuthEnabled,
+		RetryDelay:            gw.cfg.RetryDelay,
+		RetryCount:            gw.cfg.RetryCount,
+	}
+	handler := newHandler(handlerCfg, gw.cfg.PredefinedTopics, logger)
+	handler.mockupDialFunc = dial
+	defer func() {
+		snConn.Close()
+	}()
+	handler.run(ctx, snConn)
+}
